@@ -38,8 +38,8 @@ def nontrivial(world):
 
 
 def run_shard(ctx):
-    n = 50 if ctx.tier == 'quick' else 900
-    ctx.set_budget(80 if ctx.tier == 'quick' else 2400)
+    n = 50 if ctx.tier == 'quick' else 3600
+    ctx.set_budget(80 if ctx.tier == 'quick' else 1100)
     run_histories(ctx, PROP, strategy(ctx.tier), checkers, nontrivial, n)
 
 
